@@ -63,6 +63,18 @@ def cluster(rng, n, spread=1.6):
             return pts
 
 
+def ball(rng, n, radius=3.0, sep=0.9):
+    """densely packed points inside a ball (no symmetry): the hard case for assignment-based restarts"""
+    pts = []
+    while len(pts) < n:
+        t = np.array([rng.uniform(-radius, radius) for _ in range(3)])
+        if np.linalg.norm(t) > radius:
+            continue
+        if all(np.linalg.norm(t - p) > sep for p in pts):
+            pts.append(t)
+    return np.array(pts)
+
+
 def make_sim(crit=0.1, weighted=False, inversion=False):
     from topsearch.similarity.molecular_similarity import MolecularSimilarity
     return MolecularSimilarity(crit, 0.05, weighted=weighted, allow_inversion=inversion)
@@ -380,6 +392,23 @@ def predicates(ctx: Ctx) -> None:
                             "inversion": inversion, "rigid_copy": same}, True)
             w = coords.atom_weights.astype(float) if weighted else None
             check_alignment(ctx, sim, coords, labels, other, f"cluster-{n}", same, w)
+        # larger generic clusters: here the 150 random restarts cannot rescue a broken identity test, so
+        # the deterministic path (furthest atoms + Kabsch + Hungarian) must itself recognise the copy
+        for _ in range(ctx.scale(60, 300) * deep):
+            n = rng.choice([18, 24, 30])
+            labels = [rng.choice(["Au", "Ag"]) for _ in range(n)] if rng.random() < 0.5 else (["C", "C", "O"] * 10)[:n]
+            pts = ball(rng, n) if rng.random() < 0.8 else cluster(rng, n, spread=3.0)
+            perm = list(range(n))
+            for sp in set(labels):
+                idx = [i for i in range(n) if labels[i] == sp]
+                sh = idx[:]; rng.shuffle(sh)
+                for a, b in zip(idx, sh):
+                    perm[a] = b
+            other = (pts[perm] @ random_rotation(rng).T + np.array([rng.uniform(-2, 2) for _ in range(3)])).flatten()
+            sim = make_sim(rng.choice([0.1, 1e-4]))
+            ctx.stats.case({"pred": "large-cluster", "n": n}, True)
+            check_alignment(ctx, sim, AtomicCoordinates(labels, pts.flatten().copy()), labels, other,
+                            f"cluster-{n}", True)
         # LJ13 icosahedron and the molecules of the test data
         import ase.io
         p13 = REPO / "tests" / "test_data" / "lj13.xyz"
